@@ -96,7 +96,11 @@ def concrete_validator(data, valid, spw=1):
     return validator
 
 
-def load_real():
+def load_real_cli():
+    return load_real(cli=True)
+
+
+def load_real(cli=False):
     """the unmodified source of /repo loaded over the cooperative scheduler, without the proxy AST pass: used for replay.
     (threads cannot be driven through a fixed schedule with the real threading module)"""
     import ast
@@ -104,6 +108,8 @@ def load_real():
     import sys
     import types
     imap = S.modules()
+    if cli:
+        imap["time"] = S.time_module()
     root = loader.REPO
     pkgname = "rxauditok"
     pkg = types.ModuleType(pkgname)
@@ -111,14 +117,25 @@ def load_real():
     sys.modules[pkgname] = pkg
     mods = {}
     for n in loader.MODULE_ORDER:
-        if n not in NAMES + ("cmdline_util",):
+        if n not in NAMES + (("cmdline_util", "cmdline") if cli else ("cmdline_util",)):
             continue
         path = os.path.join(root, "auditok", n + ".py")
         tree = ast.parse(open(path).read(), path)
-        if n in ("workers", "cmdline_util"):
+        if n in ("workers", "cmdline_util", "cmdline"):
             for node in ast.walk(tree):
                 if isinstance(node, ast.ImportFrom) and node.level == 0 and node.module in imap:
                     node.module = imap[node.module]
+                if isinstance(node, ast.ImportFrom) and node.level == 0 and node.module == "auditok":
+                    node.module = pkgname
+                if isinstance(node, ast.Import):
+                    for a in node.names:
+                        if a.name in imap:
+                            a.asname = a.asname or a.name
+                            a.name = imap[a.name]
+        if n == "cmdline":
+            for k in ("AudioRegion",):
+                setattr(pkg, k, getattr(mods["core"], k))
+            pkg.__version__ = "replay"
         m = types.ModuleType(pkgname + "." + n)
         m.__package__ = pkgname
         m.__file__ = path
